@@ -157,9 +157,61 @@ def work(part, n):
                 pass
 
 
+def k_groupby(ctx):
+    """K: the real _get_chunks_for_groups and the chunks groupby_blockwise declares, and the (start_group, num_groups, labels) every
+    task of a real groupby_blockwise hands to its block function, vs Model.GroupBy"""
+    import cubed
+    import cubed.array_api as xp
+    from cubed.core.groupby import _get_chunks_for_groups, groupby_blockwise
+
+    from harness.framework import cnat, cnatlist
+
+    r = ctx.rng
+    spec = cubed.Spec(allowed_mem="200MB")
+    cases = []
+    for _ in range(ctx.n(60, 1200)):
+        n = r.randint(1, 14)
+        G = r.randint(1, 8)
+        labels = sorted(r.randrange(G) for _ in range(n))          # sorted, possibly with empty groups
+        c = r.randint(1, n)
+        nc = -(-n // c)
+        newchunks, gpc = _get_chunks_for_groups(nc, np.asarray(labels), G)
+        desc = {"labels": labels, "num_groups": G, "num_chunks": nc}
+        ctx.evaluations += 1
+        seen = []
+
+        def f(arr, by, axis, start_group, num_groups):
+            seen.append((int(start_group), int(num_groups), [int(v) for v in by]))
+            return np.zeros((num_groups,) + tuple(arr.shape[1:]))
+
+        try:
+            with warnings.catch_warnings():
+                warnings.simplefilter("ignore")
+                x = xp.asarray(np.ones((n, 2)), chunks=(c, 2), spec=spec)
+                y = groupby_blockwise(x, np.asarray(labels), func=f, axis=0, dtype=np.float64, num_groups=G)
+                declared = [int(v) for v in y.chunks[0]]
+                y.compute()
+        except Exception as e:
+            ctx.count("groupby-declined:" + type(e).__name__)
+            continue
+        seen.sort()
+        nout = f"(num_out_chunks (groups_per_chunk {nc} {G}) {G})"
+        want = "[" + "; ".join(f"({sg}, {ng}, {cnatlist(by)})" for sg, ng, by in seen) + "]"
+        model_tasks = f"(map (fun j => (start_group {nc} {G} j, groups_in_chunk {nc} {G} j, read_labels {nc} {cnatlist(labels)} {G} j)) (seq 0 {nout}))"
+        cases.append({"expr": f"natlist_eqb (newchunks {nc} {cnatlist(labels)} {G}) {cnatlist([int(v) for v in newchunks])} && "
+                              f"Nat.eqb (groups_per_chunk {nc} {G}) {int(gpc)} && "
+                              f"natlist_eqb (map (groups_in_chunk {nc} {G}) (seq 0 {nout})) {cnatlist(declared)} && "
+                              f"list_eqb (pair_eqb (pair_eqb Nat.eqb Nat.eqb) natlist_eqb) {model_tasks} {want}",
+                      "desc": desc, "show": f"(newchunks {nc} {cnatlist(labels)} {G}, {model_tasks})"})
+        if len(declared) >= 2:
+            ctx.nt(("groupby", n, G, nc))
+    ctx.corr("groupby_chunks_and_task_arguments", "Model.Util Model.Geometry Model.GroupBy", cases, chunk=200)
+
+
 def run(ctx):
     warnings.filterwarnings("ignore")
     k_dtypes(ctx)
+    k_groupby(ctx)
     pmap(ctx, work, [24] * (ctx.n(288, 9600) // 24), procs=12)
 
 
